@@ -109,49 +109,3 @@ fn c08_bitpacker_w64() {
     rt::<64, 4>();
 }
 
-/// get_ids_for_value_range = filter: every id in range whose value lies in the value range,
-/// in increasing order (width 9, 5 values)
-#[kani::proof]
-#[kani::unwind(10)]
-fn c08_get_ids_for_value_range_w9() {
-    const BITS: u8 = 9;
-    const N: usize = 5;
-    let vals: [u64; N] = kani::any();
-    let mut out = Fixed { buf: [0; 80], len: 0 };
-    let mut bp = BitPacker::new();
-    let mut i = 0;
-    while i < N {
-        kani::assume(vals[i] < 512);
-        match bp.write(vals[i], BITS, &mut out) {
-            Ok(()) => {}
-            Err(e) => {
-                std::mem::forget(e);
-                panic!()
-            }
-        }
-        i += 1;
-    }
-    match bp.close(&mut out) {
-        Ok(()) => {}
-        Err(e) => {
-            std::mem::forget(e);
-            panic!()
-        }
-    }
-    let unp = BitUnpacker::new(BITS);
-    let (lo, hi): (u64, u64) = (kani::any(), kani::any());
-    let mut positions: Vec<u32> = Vec::with_capacity(8);
-    unp.get_ids_for_value_range(lo..=hi, 0..N as u32, &out.buf[..out.len], &mut positions);
-    let mut expected = 0usize;
-    let mut i = 0;
-    while i < N {
-        if vals[i] >= lo && vals[i] <= hi {
-            assert!(positions[expected] == i as u32);
-            expected += 1;
-        }
-        i += 1;
-    }
-    assert!(positions.len() == expected);
-    kani::cover!(expected == 2);
-    std::mem::forget(positions);
-}
